@@ -646,6 +646,268 @@ def oracle(geo, blockmap, real, injective, rec):
     return out
 
 
+# ------------------------------------------------------------------ sequence facet (hidden state)
+#
+# The property quantifies over geometries, not over how a geometry came to be: a conversion of a mulgrid that has been
+# converted before and edited since must be as exact as the conversion of a freshly built one.  A sequence case is
+#   {'gen': 'seq', 'base': <rect / shipped recipe>, 'steps': [step, ...]}
+# replayed on ONE mulgrid object in ONE process.  Steps (all through the public API, caches refreshed as the library's
+# own editing operations leave them):
+#   ['convert']                     t2grid().fromgeo(geo) on the object as it is now (judged like a fresh conversion)
+#   ['refine', [i, ...] | None]     geo.refine(columns)           (None = all columns)
+#   ['move', i, fx, fy]             node i moved by (fx, fy)/8 of the shortest edge at it; the touching columns get
+#                                   centre = centroid and get_area(), exactly as mulgrid.optimize() finishes
+#   ['swap', i, j]                  columns i and j deleted and re-added with each other's name (i == j: same name),
+#                                   missing connections re-added as refine() does
+#   ['surface', i, spec]            column surface changed, set_column_num_layers
+#   ['rotate', angle] / ['translate', [dx, dy, dz]]
+# Every conversion in the history is judged by the independent exact oracle on the state the object has at that moment,
+# and additionally against the conversion of a FRESH object rebuilt from that state through the public constructors.
+
+SEQ_MAX_COLS = 150
+
+
+def gen_seq_base(rng):
+    if rng.random() < 0.6:
+        rec = gen_rect(rng)
+        rec['dx'], rec['dy'], rec['dz'] = rec['dx'][:3], rec['dy'][:3], rec['dz'][:3]
+        if len(rec['dx']) * len(rec['dy']) < 2:
+            rec['dx'] = rec['dx'] + [gen_spacing(rng)]
+        rec['surf'] = gen_surfaces(rng, len(rec['dx']) * len(rec['dy']), len(rec['dz']))
+        rec.update({'chars': None, 'stale': None})
+    else:
+        rec = gen_shipped(rng)
+        rec['ncols'] = min(rec['ncols'], 12)
+        rec['nlay'] = min(rec['nlay'], 3)
+        if rec['surf'] is not None:
+            rec['surf'] = gen_surfaces(rng, rec['ncols'], rec['nlay'])
+    rec['map'] = None
+    return rec
+
+
+def gen_edit(rng, kind=None):
+    kind = kind or rng.choice(['refine', 'refine', 'move', 'move', 'swap', 'surface', 'rotate', 'translate'])
+    if kind == 'refine':
+        return ['refine', None if rng.random() < 0.5 else [rng.randrange(1000) for _ in range(rng.randint(1, 3))]]
+    if kind == 'move':
+        return ['move', rng.randrange(1000), rng.choice([-2, -1, 1, 2]), rng.choice([-2, -1, 0, 1, 2])]
+    if kind == 'swap':
+        i = rng.randrange(1000)
+        return ['swap', i, i if rng.random() < 0.3 else rng.randrange(1000)]
+    if kind == 'surface':
+        return ['surface', rng.randrange(1000), ['in', rng.randint(1, 3), rng.choice([0, 1, 2, 3, 4])]]
+    if kind == 'rotate':
+        return ['rotate', rng.choice([90, 180, 270, 30, 45, -60])]
+    return ['translate', [rng.randint(-400, 400) / 4.0, rng.randint(-400, 400) / 4.0, rng.randint(-40, 40) / 4.0]]
+
+
+def gen_seq(rng):
+    base = gen_seq_base(rng)
+    r = rng.random()
+    if r < 0.2:       # convert, refine, refine again, convert (freed names are taken again by the second refinement)
+        edits = [gen_edit(rng, 'refine'), gen_edit(rng, 'refine')]
+    elif r < 0.4:     # convert, node moves as in optimize(), convert
+        edits = [gen_edit(rng, 'move') for _ in range(rng.randint(1, 3))]
+    elif r < 0.5:     # convert, delete + re-add columns re-using names, convert
+        edits = [gen_edit(rng, 'swap') for _ in range(rng.randint(1, 2))]
+    else:
+        edits = [gen_edit(rng) for _ in range(rng.randint(1, 5))]
+    steps = [['convert']] if rng.random() < 0.9 else []
+    for e in edits:
+        steps.append(e)
+        if rng.random() < 0.35:
+            steps.append(['convert'])
+    if steps[-1] != ['convert']:
+        steps.append(['convert'])
+    return {'gen': 'seq', 'base': base, 'steps': steps}
+
+
+def refresh(geo):
+    geo.setup_block_name_index()
+    geo.setup_block_connection_name_index()
+
+
+def apply_step(geo, step):
+    """one edit on the same object; returns a short tag of what happened (deterministic given the object's state)"""
+    import mulgrids, numpy as np
+    kind = step[0]
+    nc = geo.num_columns
+    if kind == 'refine':
+        cols = [] if step[1] is None else [geo.columnlist[i % nc] for i in sorted(set(k % nc for k in step[1]))]
+        if (4 * nc if step[1] is None else nc + 12 * len(cols)) > SEQ_MAX_COLS:
+            return 'refine-skipped(size)'
+        if not all(c.num_nodes in (3, 4) for c in geo.columnlist):
+            return 'refine-skipped(polygons)'     # refine() supports 3- and 4-sided columns only (C11's business)
+        geo.refine(cols)
+        return 'refine-all' if step[1] is None else 'refine-some'
+    if kind == 'move':
+        nd = geo.nodelist[step[1] % geo.num_nodes]
+        cols = list(nd.column)
+        m = None
+        for c in cols:
+            k = c.node.index(nd)
+            for other in (c.node[k - 1], c.node[(k + 1) % c.num_nodes]):
+                d = float(np.linalg.norm(other.pos - nd.pos))
+                m = d if m is None else min(m, d)
+        if not m:
+            return 'move-skipped'
+        old = (nd.pos, [(c, c.centre, c.area) for c in cols])
+        nd.pos = nd.pos + np.array([step[2] * m / 8.0, step[3] * m / 8.0])
+        for c in cols:
+            c.centre = c.centroid
+            c.get_area()
+        if not all(c.area > 1e-3 * m * m and c.contains_point(c.centre) for c in cols):
+            nd.pos = old[0]                       # the move would turn a column inside out: not a valid geometry; undo
+            for c, centre, area in old[1]:
+                c.centre, c.area = centre, area
+            return 'move-undone'
+        return 'move'
+    if kind == 'swap':
+        a, b = geo.columnlist[step[1] % nc], geo.columnlist[step[2] % nc]
+        pair = [a] if a is b else [a, b]
+        saved = [(c.name, list(c.node), c.surface) for c in pair]
+        for c in pair:
+            geo.delete_column(c.name)
+        names = [s[0] for s in saved][::-1]
+        for name, (_, nodes, surface) in zip(names, saved):
+            geo.add_column(mulgrids.column(name, nodes, surface=surface))
+            geo.set_column_num_layers(geo.columnlist[-1])
+        for con in sorted(geo.missing_connections, key=lambda k: tuple(c.name for c in k.column)):
+            geo.add_connection(con)
+        geo.identify_neighbours()
+        refresh(geo)
+        return 'readd-same-name' if a is b else 'readd-swapped-names'
+    if kind == 'surface':
+        col = geo.columnlist[step[1] % nc]
+        col.surface = surface_value(geo, step[2])
+        geo.set_column_num_layers(col)
+        refresh(geo)
+        return 'surface'
+    if kind == 'rotate':
+        geo.rotate(step[1], np.zeros(2))
+        return 'rotate'
+    if kind == 'translate':
+        geo.translate(np.array(step[1]))
+        refresh(geo)
+        return 'translate'
+    raise ValueError('unknown step %r' % (step,))
+
+
+def rebuild_fresh(geo):
+    """a new mulgrid object with the state `geo` has now, through the public constructors (as mulgrid.read does)"""
+    import mulgrids, numpy as np
+    g = mulgrids.mulgrid(convention=geo.convention, atmos_type=geo.atmosphere_type, atmos_volume=geo.atmosphere_volume,
+                         atmos_connection=geo.atmosphere_connection, permeability_angle=geo.permeability_angle,
+                         block_order=geo.block_order)
+    g.gdcx, g.gdcy = geo.gdcx, geo.gdcy
+    for n in geo.nodelist:
+        g.add_node(mulgrids.node(n.name, np.array(n.pos, dtype=float)))
+    for c in geo.columnlist:
+        g.add_column(mulgrids.column(c.name, [g.node[n.name] for n in c.node], np.array(c.centre, dtype=float), float(c.surface)))
+    for con in geo.connectionlist:
+        g.add_connection(mulgrids.connection([g.column[c.name] for c in con.column]))
+    for lay in geo.layerlist:
+        g.add_layer(mulgrids.layer(lay.name, lay.bottom, lay.centre, lay.top))
+    for col in g.columnlist:
+        g.set_column_num_layers(col)
+    g.identify_neighbours()
+    refresh(g)
+    return g
+
+
+def fresh_differences(geo, real, rec):
+    """the same-object conversion against the conversion of a fresh object with the same state; only quantities the
+    property fixes (names and order, volumes, areas, distances; gravity cosines of an untilted geometry)"""
+    with quiet():
+        g = rebuild_fresh(geo)
+    if [c.name for c in g.columnlist] != [c.name for c in geo.columnlist] or len(g.connectionlist) != len(geo.connectionlist):
+        return []       # the rebuild did not reproduce the state (duplicate names ...): nothing to compare with
+    fresh = run_real(g, {})
+    if fresh[0] != real[0]:
+        return [dict(key='sequence-vs-fresh', case=rec,
+                     what='fromgeo on the edited object: %s, on a fresh object with the same state: %s'
+                          % (real[1] if real[0] == 'exc' else 'ok', fresh[1] if fresh[0] == 'exc' else 'ok'))]
+    if real[0] == 'exc':
+        return []
+    (B, K), (fB, fK) = observe(real[1]), observe(fresh[1])
+
+    def bad(what):
+        return [dict(key='sequence-vs-fresh', case=rec, what=what + ' (same state, fresh mulgrid object)')]
+    if [b[0] for b in B] != [b[0] for b in fB]:
+        return bad('block names/order differ from those of a fresh conversion: %r vs %r' % ([b[0] for b in B][:6], [b[0] for b in fB][:6]))
+    if [k[0] for k in K] != [k[0] for k in fK]:
+        return bad('connection names/order differ from those of a fresh conversion: %r vs %r' % ([k[0] for k in K][:4], [k[0] for k in fK][:4]))
+    for (n, v, c, atm), (_, fv, fc, fatm) in zip(B, fB):
+        if (v is None) != (fv is None) or (v is not None and not close(v, fv)):
+            return bad('volume of block %r is %r, fresh conversion gives %r' % (n, v, fv))
+    untilt = untilted(geo)
+    for (nm, d, dist, area, dc), (_, fd, fdist, farea, fdc) in zip(K, fK):
+        if not close(area, farea, RTOL, 1e-12):
+            return bad('area of connection %r is %r, fresh conversion gives %r' % (nm, area, farea))
+        if not (close(dist[0], fdist[0], RTOL, 1e-12) and close(dist[1], fdist[1], RTOL, 1e-12)):
+            return bad('distances of connection %r are %r, fresh conversion gives %r' % (nm, dist, fdist))
+        if untilt and not (math.isnan(dc) and math.isnan(fdc)) and not close(dc, fdc, RTOL, CTOL):
+            return bad('gravity cosine of connection %r is %r, fresh conversion gives %r' % (nm, dc, fdc))
+    return []
+
+
+def run_sequence(rec, res=None):
+    """replays a sequence case on one object; returns the violations of the first conversion that breaks the property"""
+    base = dict(rec['base'])
+    with quiet():
+        geo, _, _ = build(base)
+    tags, nconv = [], 0
+    for i, step in enumerate(rec['steps']):
+        if step[0] != 'convert':
+            try:
+                with quiet():
+                    tags.append(apply_step(geo, step))
+            except Exception as e:
+                # the edit itself failed (naming convention exhausted ...): that is C10/C11's business, and the object
+                # may be half edited - not a valid geometry any more
+                tags.append('%s-raised:%s' % (step[0], type(e).__name__))
+                break
+            continue
+        nconv += 1
+        if not geo_valid(geo):
+            break
+        real = run_real(geo, {})
+        v = oracle(geo, {}, real, True, rec)
+        if not v:
+            v = fresh_differences(geo, real, rec)
+        if v:
+            hist = ' -> '.join(['convert' if s[0] == 'convert' else s[0] for s in rec['steps'][:i + 1]])
+            for x in v:
+                x['what'] = 'after the history [%s] on one mulgrid object: %s' % (hist, x['what'])
+                if not x['key'].startswith('sequence-'):
+                    x['key'] = 'sequence:' + x['key']
+            if res is not None:
+                for t in tags: res.count('seq-step:' + t)
+            return v, tags, nconv
+    if res is not None:
+        for t in tags: res.count('seq-step:' + t)
+    return [], tags, nconv
+
+
+def describe_seq(rec):
+    return 'sequence on %s: %s' % (describe(rec['base']), ' '.join(s[0] for s in rec['steps']))
+
+
+def run_sequences(ctx, res, scale=1.0):
+    rng = ctx.rng('sequence')
+    facet = res.facet('sequence')
+    n = max(1, int(ctx.n(60, 800) * scale))
+    for _ in range(n):
+        rec = gen_seq(rng)
+        v, tags, nconv = run_sequence(rec, res)
+        facet['cases'] += 1
+        res.evaluations += nconv
+        res.count('sequence cases')
+        res.count('sequence conversions judged', nconv)
+        res.count('seq-base:' + (rec['base']['gen'] if rec['base']['gen'] == 'rect' else rec['base']['file']))
+        res.violations += v
+
+
 # ------------------------------------------------------------------ measured reach (thorough tier)
 
 EVIDENCE_EXTRA = {}
@@ -726,7 +988,10 @@ def run(ctx, scale=1.0, oracle_only=False):
     res.rule = ('cases = geometries built with the real constructors (rectangular with dyadic spacings/origins; connected patches of the 7 shipped '
                 'irregular geometries rebuilt column by column, some refined with the real refine(); all g7.dat) x conventions x atmosphere types x '
                 'block orders x permeability angles x rotation/translation x tilt x block maps, column surfaces on a lattice from below the bottom '
-                'layer to above the top; non-trivial = distinct request lines with at least one non-default column surface or a non-empty block map')
+                'layer to above the top; non-trivial = distinct request lines with at least one non-default column surface or a non-empty block map; '
+                'facet sequence (oracle only): edit histories (refine / node move + centre and area update / delete and re-add columns under '
+                're-used names / surface change / rotate / translate) with fromgeo called on the SAME mulgrid object before and between the edits, '
+                'every conversion judged by the exact oracle and against a fresh object rebuilt from the same state')
     rng = ctx.rng('fromgeo')
     cases = gen_cases(ctx, rng, scale)
     facet = res.facet('fromgeo')
@@ -786,6 +1051,7 @@ def run(ctx, scale=1.0, oracle_only=False):
     else:
         for rec, geo, blockmap, injective, real in built[:6]:
             res.sample({'case': describe(rec)})
+    run_sequences(ctx, res, scale)
     if not ctx.quick and not oracle_only:
         sub = [c for c in cases if not c.get('whole')][:150]
 
@@ -816,6 +1082,9 @@ def replay(ctx, payload):
     rec = payload.get('case')
     if not isinstance(rec, dict) or 'gen' not in rec:
         return False, 'replay file names what no longer checks: %s' % payload.get('broken')
+    if rec['gen'] == 'seq':
+        v, tags, nconv = run_sequence(rec)
+        return bool(v), describe_seq(rec) + ' -> ' + (v[0]['what'] if v else 'property holds at each of the %d conversions' % nconv)
     geo, blockmap, injective = build(rec)
     real = run_real(geo, blockmap)
     v = oracle(geo, blockmap, real, injective, rec)
